@@ -28,6 +28,10 @@ def main():
         if claimed != set(reg):
             print("MANIFEST.json claims %s but the registry has %s" % (sorted(claimed), sorted(reg)))
             return 1
+    from sa import transform_selftest
+    if transform_selftest.main() != 0:
+        print("the loader's rewrites do not preserve meaning on the self-test cases")
+        return 1
     print("setup ok: %d rule sets (%s), %d known findings" % (len(reg), ",".join(sorted(reg)), len(kf.get("findings", []))))
     return 0 if ok else 1
 
